@@ -1,19 +1,20 @@
-/- C03 — the executable doubles (`F64`: sign-magnitude reading of the 64-bit pattern) satisfy `LawfulNum`. -/
-import JanetModel.Value.Lemmas
+/- C03 — the executable doubles (`F64`: ALL 64-bit patterns, NaN included, sign-magnitude reading for the order) satisfy
+   `LawfulNaNNum`; so the non-NaN patterns `NonNaN F64` satisfy `LawfulNum` (instance in NaNNum.lean). -/
+import JanetModel.Value.NaNNum
 
 namespace JanetModel.Value
 
-theorem F64.key_inj_norm (a b : F64) (h : a.key = b.key) :
+theorem F64.key_inj_norm (a b : F64) (ha : a.isNaN = false) (hb : b.isNaN = false) (h : a.key = b.key) :
     (NumLike.normBits a : UInt64) = NumLike.normBits b := by
-  have ha : a.bits.toNat < 18446744073709551616 := a.bits.toNat_lt
-  have hb : b.bits.toNat < 18446744073709551616 := b.bits.toNat_lt
+  have hab : a.bits.toNat < 18446744073709551616 := a.bits.toNat_lt
+  have hbb : b.bits.toNat < 18446744073709551616 := b.bits.toNat_lt
   have e1 : ∀ x : UInt64, (x == 0x8000000000000000) = decide (x.toNat = 9223372036854775808) := by
     intro x
     by_cases hx : x = 0x8000000000000000
     · subst hx; decide
     · have : x.toNat ≠ 9223372036854775808 := fun h => hx (UInt64.toNat_inj.mp (by rw [h]; decide))
       simp [hx, this]
-  simp only [NumLike.normBits, e1]
+  simp only [NumLike.normBits, e1, ha, hb, Bool.false_eq_true, if_false]
   unfold F64.key F64.neg F64.mag at h
   apply UInt64.toNat_inj.mp
   by_cases h1 : a.bits.toNat = 9223372036854775808 <;> by_cases h2 : b.bits.toNat = 9223372036854775808 <;>
@@ -21,18 +22,57 @@ theorem F64.key_inj_norm (a b : F64) (h : a.key = b.key) :
     (try (show (0 : UInt64).toNat = _; simp)) <;> (try (show _ = (0 : UInt64).toNat; simp)) <;>
     (split at h <;> split at h <;> simp at * <;> omega)
 
-instance : LawfulNum F64 where
-  eq_refl a := by simp [NumLike.eq]
-  eq_symm a b := by simp [NumLike.eq, Bool.beq_comm]
-  eq_trans a b c := by simp [NumLike.eq]; omega
-  lt_not_eq a b := by simp [NumLike.eq, NumLike.lt]; omega
-  lt_asymm a b := by simp [NumLike.lt]; omega
-  lt_total a b := by simp [NumLike.eq, NumLike.lt]; omega
-  lt_trans a b c := by simp [NumLike.lt]; omega
-  lt_congr_left a b c := by simp [NumLike.eq, NumLike.lt]; intro h; rw [h]
-  lt_congr_right a b c := by simp [NumLike.eq, NumLike.lt]; intro h; rw [h]
+theorem F64.eq_iff (a b : F64) : NumLike.eq a b = true ↔ a.isNaN = false ∧ b.isNaN = false ∧ a.key = b.key := by
+  simp only [NumLike.eq]
+  cases a.isNaN <;> cases b.isNaN <;> simp
+
+theorem F64.lt_iff (a b : F64) : NumLike.lt a b = true ↔ a.isNaN = false ∧ b.isNaN = false ∧ a.key < b.key := by
+  simp only [NumLike.lt]
+  cases a.isNaN <;> cases b.isNaN <;> simp
+
+theorem F64.eq_false_iff (a b : F64) : NumLike.eq a b = false ↔ ¬ (a.isNaN = false ∧ b.isNaN = false ∧ a.key = b.key) := by
+  rw [← F64.eq_iff]; simp
+
+theorem F64.lt_false_iff (a b : F64) : NumLike.lt a b = false ↔ ¬ (a.isNaN = false ∧ b.isNaN = false ∧ a.key < b.key) := by
+  rw [← F64.lt_iff]; simp
+
+/-- `isnan` of the model is the IEEE classification of the pattern: exponent all ones, mantissa non-zero -/
+theorem F64.isNaN_iff (a : F64) : NumLike.isNaN a = a.isNaN := by
+  simp only [NumLike.isNaN, NumLike.eq]
+  cases a.isNaN <;> simp
+
+instance : LawfulNaNNum F64 where
+  nan_eq_left a b := by rw [F64.eq_false_iff, F64.eq_false_iff]; intro h1 h2; exact h1 ⟨h2.1, h2.1, rfl⟩
+  nan_eq_right a b := by rw [F64.eq_false_iff, F64.eq_false_iff]; intro h1 h2; exact h1 ⟨h2.2.1, h2.2.1, rfl⟩
+  nan_lt_left a b := by rw [F64.eq_false_iff, F64.lt_false_iff]; intro h1 h2; exact h1 ⟨h2.1, h2.1, rfl⟩
+  nan_lt_right a b := by rw [F64.eq_false_iff, F64.lt_false_iff]; intro h1 h2; exact h1 ⟨h2.2.1, h2.2.1, rfl⟩
+  eq_symm a b := by
+    cases h : NumLike.eq b a
+    · rw [F64.eq_false_iff] at h ⊢; intro h2; exact h ⟨h2.2.1, h2.1, h2.2.2.symm⟩
+    · rw [F64.eq_iff] at h ⊢; exact ⟨h.2.1, h.1, h.2.2.symm⟩
+  eq_trans a b c := by simp only [F64.eq_iff]; intro h1 h2; exact ⟨h1.1, h2.2.1, h1.2.2.trans h2.2.2⟩
+  lt_not_eq a b := by rw [F64.lt_iff, F64.eq_false_iff]; intro h1 h2; omega
+  lt_asymm a b := by rw [F64.lt_iff, F64.lt_false_iff]; intro h1 h2; omega
+  lt_total a b := by
+    rw [F64.eq_iff, F64.eq_iff, F64.eq_false_iff, F64.lt_false_iff, F64.lt_iff]
+    intro h1 h2 h3 h4
+    refine ⟨h2.1, h1.1, ?_⟩
+    have : a.key ≠ b.key := fun e => h3 ⟨h1.1, h2.1, e⟩
+    have : ¬ a.key < b.key := fun e => h4 ⟨h1.1, h2.1, e⟩
+    omega
+  lt_trans a b c := by simp only [F64.lt_iff]; intro h1 h2; exact ⟨h1.1, h2.2.1, by omega⟩
+  lt_congr_left a b c := by
+    rw [F64.eq_iff]; intro h
+    cases h2 : NumLike.lt b c
+    · rw [F64.lt_false_iff] at h2 ⊢; intro h3; exact h2 ⟨h.2.1, h3.2.1, by omega⟩
+    · rw [F64.lt_iff] at h2 ⊢; exact ⟨h.1, h2.2.1, by omega⟩
+  lt_congr_right a b c := by
+    rw [F64.eq_iff]; intro h
+    cases h2 : NumLike.lt c b
+    · rw [F64.lt_false_iff] at h2 ⊢; intro h3; exact h2 ⟨h3.1, h.2.1, by omega⟩
+    · rw [F64.lt_iff] at h2 ⊢; exact ⟨h2.1, h.1, by omega⟩
   eq_norm a b := by
-    intro h
-    exact F64.key_inj_norm a b (by simpa [NumLike.eq] using h)
+    rw [F64.eq_iff]; intro h
+    exact F64.key_inj_norm a b h.1 h.2.1 h.2.2
 
 end JanetModel.Value
